@@ -17,7 +17,10 @@ PROP = dict(
         thorough=dict(cases=288000, shards=16, profiles=["debug", "release"]),
     )],
     rule="as C06 but with source-version changes in 40% of the rounds, re-import after 30% and own-version change after 8% of "
-         "the calls; closures of compute_to/range/transform/transform2-4 log every index they are called with; non-trivial = "
+         "the calls; closures of compute_to/range/transform/transform2-4 log every index they are called with; 10% of the cases begin with results "
+         "that exist only in the pushed buffer (stored_len == 0) — values pushed by hand (`hp:<k>`) or the prefix left by a user "
+         "closure that fails at index j before the write (`C<max_from>:<cap>:<j>`), on a fresh vector or after a truncation to 0 — "
+         "followed by a version change (2/3) or not (1/3) and a call with max_from > 0; non-trivial = "
          "at least one version op and two of {version change on a non-empty vector, re-import, truncating call, own-version "
          "change, redundant call}; distinct = distinct input string",
     trusted_base=["the ghost tags (version, call serial) exist only in the model; on the implementation the evaluated indices are "
@@ -35,8 +38,8 @@ ENGINES = [
 TEXT = dict(
     design_ref="DESIGN.md section 4, C19",
     technique="Coq proof over the compute driver with ghost version/serial tags + extracted-model differential",
-    text=("Proof: C19_no_mix (raw and compressed formats: after ANY history every element in memory and on disk carries the recorded "
-          "computed version), C19_discard (version differs => every element of the result was evaluated by this call under the presented "
+    text=("Proof: C19_no_mix (raw and compressed formats: after ANY history — compute calls incl. user closures failing part-way, hand pushes, writes, re-imports, own-version changes — every element in memory and on disk carries the recorded "
+          "computed version), C19_discard / C19_discard_unwritten (for ANY state of the vector, including results that exist only unwritten in the pushed buffer: version differs => every element of the result was evaluated by this call under the presented "
           "version, which is recorded), C19_no_recompute (version equal => the elements below min(max_from, length) are the same "
           "tagged elements), C19_persist (the recorded version survives write and flush + re-import)."),
     note="Trusted: Coq kernel; extraction + OCaml driver; the Rust harness; the driver model is tied to the code differentially.",
